@@ -34,6 +34,12 @@ check("C10", "exploration",
   "Sort keys exclude NaN and repeated key columns; n is small except for run-structured inputs; nulls-first/last is taken to be independent of direction, as the SortingColumn interface documents.",
   "DESIGN.md §2 C10")
 
+check("C08", "model_checking",
+  "explicit exhaustive exploration of all operation sequences up to depth D over the seek/read alphabet on the real readers, checked step by step against a cursor reference model (a slice index), then drained to the end",
+  "Every sequence of <=3 (quick) / <=4 (thorough) operations from {SeekToRow(0..N), Read(1), Read(2), Read(N+1)} (ReadPage for page readers) - one deeper on the four plain files - is executed on a fresh real reader for 64 file configurations and 12 reader kinds, and after every operation and the final drain the rows/values returned must be exactly those of the cursor model. Depth-bounded but complete: the cached-page / skip-counter / buffered-bytes state combinations the property worries about are all reachable within 3-4 operations on files with 1-3 rows per page, which is why exhaustive enumeration of short histories (not sampling of long ones) is the right instrument.",
+  "Histories longer than D, other file shapes and page layouts are not covered; async mode is exercised only as a sequential client here (schedules are C15's); merged/concatenated forward-only readers are C09's.",
+  "DESIGN.md §2 C08")
+
 NOT_YET = "check not built yet in this round (design in DESIGN.md §2); not claimed until its check exists"
 
 m = {
